@@ -22,9 +22,13 @@ ENTRY = dict(
                 "configuration are accepted. Goroutine schedules are sampled by the runs, not quantified by a theorem."),
     technique="Lean 4 proof (kernel theorems on the engine model) + lock-step model/implementation replay",
     lean_modules=["Bpmn.Props.C01", "Bpmn.Props.C01Conformance", "Bpmn.Props.EngineCurrent"],
-    families=["c01"],
+    families=["c01", "c01d"],
     facts_from=["Engine"],
-    rule=("seeded block-structured programs (tasks of all nine kinds, seq, exclusive / parallel / inclusive blocks with "
+    rule=("c01d: 48 DIRECTED programs for the data a condition sees — [exclusive split on a variable]? -> parallel / inclusive "
+          "fork -> A || B (writes y) [|| sub-process whose inner task writes z]? -> join -> exclusive split on y / z: every "
+          "fixed order of answering the pending tasks (it decides which token survives the join) x values written; the "
+          "variable written by another token must be seen by the next condition, whichever token evaluates it. "
+          "c01: seeded block-structured programs (tasks of all nine kinds, seq, exclusive / parallel / inclusive blocks with "
           "defaults at random positions and empty branches, loops, embedded sub-processes, optionally a final activity with "
           "conditional outgoing flows; <= 14 nodes and nesting 3 quick, <= 26 / 4 thorough), random initial variables, "
           "pending requests answered in a seeded order at quiescence with declared and undeclared results; non-trivial = at "
